@@ -607,7 +607,7 @@ class FanoutCache:
             temp = Cache(
                 directory=directory,
                 timeout=timeout,
-                disk=self._disk if disk is None else Disk,
+                disk=self._disk if disk is None else disk,
                 **settings,
             )
             _caches[name] = temp
